@@ -116,6 +116,8 @@ type vf28Case struct {
 	Pre        []vf28PreOp
 	Ns         []int // lengths passed to GetOutKeystream, first one is judged against the wire
 	Post       []int // sizes of the messages written after the call; first one is the judged plaintext
+	// EmptyWrite: a Write of zero bytes between the GetOutKeystream calls and the first write that carries data
+	EmptyWrite bool
 }
 
 type vf28Run struct {
@@ -276,6 +278,13 @@ func vf28ExecuteInner(c *vf28Case, callKS bool, stage *atomic.Int32) (res *vf28R
 	}
 	stage.Store(2)
 	res.pre = p.CP.Written()
+	if c.EmptyWrite {
+		// a zero-length Write sends nothing: the record predicted by GetOutKeystream is still the next one
+		if n, err := p.Cli.Write(nil); err != nil || n != 0 {
+			res.err = fmt.Errorf("post: zero-length Write returned (%d, %v)", n, err)
+			return
+		}
+	}
 	for _, size := range c.Post {
 		msg, err := send(size)
 		res.postPlain = append(res.postPlain, msg)
@@ -314,6 +323,7 @@ func vf28GenCase(rt *rapid.T) *vf28Case {
 	}
 	c.Seed = rapid.Uint64().Draw(rt, "seed")
 	c.NoDynamic = rapid.Bool().Draw(rt, "nodynamic")
+	c.EmptyWrite = rapid.IntRange(0, 3).Draw(rt, "empty_write_first") == 0
 	npre := rapid.IntRange(0, 5).Draw(rt, "npre")
 	for i := 0; i < npre; i++ {
 		var op vf28PreOp
@@ -372,7 +382,7 @@ func vf28Describe(c *vf28Case) map[string]any {
 			pre += fmt.Sprintf("%d ", op.Size)
 		}
 	}
-	return map[string]any{"suite": c.Suite.name, "client": c.ClientKind, "seed": c.Seed, "no_dynamic_sizing": c.NoDynamic,
+	return map[string]any{"suite": c.Suite.name, "client": c.ClientKind, "seed": c.Seed, "no_dynamic_sizing": c.NoDynamic, "empty_write_first": c.EmptyWrite,
 		"pre": pre, "n": c.Ns, "post": c.Post}
 }
 
